@@ -290,12 +290,76 @@ theorem litRaw_plain {q : Char} {t : Table} (hok : rawTableOK q t = true) (s res
   exact h
 
 /-- control characters (U+0001–U+001F, U+007F) as an (otherwise unused) key table: `rawSafe` then
-excludes them, as `pattern_literal` does -/
+excludes them, as `pattern_literal` did before the rule "only printable characters" (kept for the
+driver handler `patlit.rawsafe`, which compares both quotes) -/
 def ctrlKeys : Table := ((List.range 32).drop 1 ++ [127]).map (fun n => (Char.ofNat n, []))
 
+/-- the two tests of `pattern_literal` that do not look at printability: the quote `q` does not
+occur, and no backslash dangles (`(len(p) - len(p.rstrip("\\"))) % 2 == 0`, modelled as "the
+backslashes pair up from the left with whatever follows them"; the two readings agree because a
+backslash that is not in the trailing run always has a partner — compared with the real function
+on every run by the campaigns `esc.rawsafe` / `patlit.text`). NOTHING is said about newlines or
+NUL here: the code leaves them to `str.isprintable`. -/
+def quoteFreePaired (q : Char) : List Char → Bool
+  | [] => true
+  | [c] => c != '\\' && c != q
+  | c :: e :: r =>
+    if c = '\\' then e != q && quoteFreePaired q r else c != q && quoteFreePaired q (e :: r)
+
+/-- the characters a raw short literal cannot hold verbatim (`Py/Lex.unitRaw` stops at them): the
+MINIMAL demand on a printability predicate for the raw branch to be one token -/
+def rawBreakers : List Char := ['\n', '\r', Char.ofNat 0]
+
+/-- `pr` calls none of `rawBreakers` printable (decidable for a concrete `pr`; CPython's
+`str.isprintable` satisfies it: `Props/C01.cpython_printable_ok`) -/
+def printableOK (pr : Char → Bool) : Bool := rawBreakers.all (fun b => !pr b)
+
 /-- `model/pydantic/types.py pattern_literal`, the choice: raw literal iff no single quote, no
-control character and no dangling backslash (validated against the real function by the
-`esc.patternraw` campaign) -/
-def patternRawOK (p : List Char) : Bool := rawSafe '\'' ctrlKeys p
+dangling backslash and `pattern.isprintable()` (`pr` = `str.isprintable` of one character, a
+PARAMETER as in `Py/Repr`; validated against the real function by the `esc.rawsafe` campaign) -/
+def patternRawOK (pr : Char → Bool) (p : List Char) : Bool := quoteFreePaired '\'' p && p.all pr
+
+/-- what the raw branch needs from the lexer's point of view follows from the code's rule as soon as
+`pr` excludes the three characters a raw literal cannot hold -/
+theorem rawSafe_of_quoteFreePaired (q : Char) :
+    ∀ p, quoteFreePaired q p = true → (∀ c ∈ p, c ∉ rawBreakers) → rawSafe q [] p = true := by
+  intro p
+  induction p using quoteFreePaired.induct with
+  | case1 => intro _ _; simp [rawSafe]
+  | case2 c =>
+    intro h hb
+    have hc := hb c (by simp)
+    simp only [rawBreakers, List.mem_cons, List.not_mem_nil, or_false, not_or] at hc
+    simp only [quoteFreePaired, Bool.and_eq_true, bne_iff_ne, ne_eq] at h
+    simp [rawSafe, rawPlain, h.1, h.2, hc.1, hc.2.1, hc.2.2]
+  | case3 e r ih =>
+    intro h hb
+    simp only [quoteFreePaired, if_true, Bool.and_eq_true, bne_iff_ne, ne_eq] at h
+    have he := hb e (by simp)
+    simp only [rawBreakers, List.mem_cons, List.not_mem_nil, or_false, not_or] at he
+    have hr := ih h.2 (fun c hc => hb c (by simp [hc]))
+    by_cases hbs : e = '\\'
+    · simp [rawSafe, hbs, hr]
+    · simp [rawSafe, rawPlain, h.1, he.1, he.2.1, he.2.2, hbs, hr]
+  | case4 c e r hc ih =>
+    intro h hb
+    simp only [quoteFreePaired, if_neg hc, Bool.and_eq_true, bne_iff_ne, ne_eq] at h
+    have hcb := hb c (by simp)
+    simp only [rawBreakers, List.mem_cons, List.not_mem_nil, or_false, not_or] at hcb
+    have hr := ih h.2 (fun x hx => hb x (List.mem_cons_of_mem _ hx))
+    simp [rawSafe, if_neg hc, rawPlain, h.1, hcb.1, hcb.2.1, hcb.2.2, hr]
+
+theorem not_breaker_of_printable {pr : Char → Bool} (hpr : printableOK pr = true) {c : Char}
+    (h : pr c = true) : c ∉ rawBreakers := by
+  intro hm
+  simp only [printableOK, List.all_eq_true, Bool.not_eq_true'] at hpr
+  have := hpr c hm
+  rw [h] at this; cases this
+
+/-- the raw branch of `pattern_literal` is raw-safe for the single quote -/
+theorem rawSafe_of_patternRawOK {pr : Char → Bool} (hpr : printableOK pr = true) (p : List Char)
+    (h : patternRawOK pr p = true) : rawSafe '\'' [] p = true := by
+  simp only [patternRawOK, Bool.and_eq_true, List.all_eq_true] at h
+  exact rawSafe_of_quoteFreePaired '\'' p h.1 (fun c hc => not_breaker_of_printable hpr (h.2 c hc))
 
 end Dcg.Proofs.Escape
